@@ -408,8 +408,8 @@ example : CleanRun cfgH (init cfgH bankH pricesH) [.lend 1 1 1 100 1 1 0, .borro
 def stateE : State := run cfgH (init cfgH bankH pricesH) [.lend 1 1 1 100 1 1 0, .borrow 1 1 1 false 3 60 2 10 .err .err]
 
 /-- `borrow_respects_ltv`, `borrow_requires_pool_funds`, `borrow_respects_ltv_pledged`: an accepted new borrow on a regular pair -/
-example : (borrowNew cfgH (run cfgH (init cfgH bankH pricesH) [.lend 1 1 1 100 1 1 0]) 1 ⟨1, 1, 1, 1, 100, 100⟩ ⟨1, 1, 2, false, 1, false⟩
-    ⟨1, 500000000000000000, 0, 3, false, false⟩ false 3 60 2 10).toBool = true ∧ (⟨1, 1, 2, false, 1, false⟩ : PairCfg).assetIn = (⟨1, 1, 1, 1, 100, 100⟩ : Lend).asset := by
+example : (borrowNew cfgH (run cfgH (init cfgH bankH pricesH) [.lend 1 1 1 100 1 1 0]) 1 ⟨1, 1, 1, 1, 100, 100, 1⟩ ⟨1, 1, 2, false, 1, false⟩
+    ⟨1, 500000000000000000, 0, 3, false, false⟩ false 3 60 2 10).toBool = true ∧ (⟨1, 1, 2, false, 1, false⟩ : PairCfg).assetIn = (⟨1, 1, 1, 1, 100, 100, 1⟩ : Lend).asset := by
   decide
 
 /-- `draw_respects_ltv`, `draw_requires_pool_funds`: an accepted draw with accrued interest (external increments 2.5 and 0.5) -/
@@ -502,5 +502,158 @@ theorem closeBorrow_split {cfg : Cfg} {s s' : State} {u k : Nat} {ext : ExtB} (h
     rw [← hpi] at hp
     refine ⟨_, _, _, hit, hb1, hp, ?_, fun h0 hle => interest_split _ _ h0 hle⟩
     simp [*]
+
+/-! ## Emergency guards fail closed: kill switch (per app) and pool depreciation -/
+
+/-- a rejected message leaves every record, total and balance unchanged -/
+theorem rejected_no_change (cfg : Cfg) (s : State) (op : Op) (h : (step cfg s op).toBool = false) : apply cfg s op = s := by
+  unfold apply
+  cases hs : step cfg s op with
+  | ok s' => rw [hs] at h; cases h
+  | error e => rfl
+
+theorem bnot_contra {b : Bool} (h1 : (!b) = true) (h2 : b = true) : False := by subst h2; cases h1
+
+/-- **Kill switch on ⇒ every message on a lend position of that app is rejected**: deposit, withdraw, close-lend -/
+theorem killswitch_rejects_lend_ops (cfg : Cfg) (s : State) (u k d : Nat) (amt r : Int) (l : Lend)
+    (hl : getLend s.lends k = some l) (hk : s.isKilled l.app = true) :
+    (deposit cfg s u k d amt r).toBool = false ∧ (withdraw cfg s u k d amt r).toBool = false ∧ (closeLend cfg s u k r).toBool = false := by
+  have hc : ∀ s', closeLend cfg s u k r ≠ .ok s' := by
+    intro s' h; unfold closeLend at h; invert h
+    have e := ‹getLend s.lends k = some _›; rw [hl] at e; cases e
+    exact bnot_contra ‹(!s.isKilled _) = true› hk
+  have hd : ∀ s', deposit cfg s u k d amt r ≠ .ok s' := by
+    intro s' h; unfold deposit at h; invert h
+    have e := ‹getLend s.lends k = some _›; rw [hl] at e; cases e
+    exact bnot_contra ‹(!s.isKilled _) = true› hk
+  have hw : ∀ s', withdraw cfg s u k d amt r ≠ .ok s' := by
+    intro s' h; unfold withdraw at h; invert h
+    · exact hc _ ‹_›
+    · have e := ‹getLend s.lends k = some _›; rw [hl] at e; cases e
+      exact bnot_contra ‹(!s.isKilled _) = true› hk
+  refine ⟨?_, ?_, ?_⟩
+  · cases h : deposit cfg s u k d amt r with | ok s' => exact absurd h (hd s') | error e => rfl
+  · cases h : withdraw cfg s u k d amt r with | ok s' => exact absurd h (hw s') | error e => rfl
+  · cases h : closeLend cfg s u k r with | ok s' => exact absurd h (hc s') | error e => rfl
+
+/-- **Kill switch on ⇒ every message on a borrow of a lend position of that app is rejected**: deposit-borrow, draw, repay,
+close-borrow, repay-withdraw (and the liquidation hand-over) -/
+theorem killswitch_rejects_borrow_ops (cfg : Cfg) (s : State) (u k d : Nat) (amt r : Int) (ext : ExtB) (ni : Dec) (b : Borrow) (l : Lend)
+    (hb : getBorrow s.borrows k = some b) (hl : getLend s.lends b.lendingId = some l) (hk : s.isKilled l.app = true) :
+    (depositBorrow cfg s u k d amt ext).toBool = false ∧ (draw cfg s u k d amt ext).toBool = false ∧
+    (repay cfg s u k d amt ext).toBool = false ∧ (closeBorrow cfg s u k ext).toBool = false ∧
+    (repayWithdraw cfg s u k ext r).toBool = false ∧ (handover cfg s k ni).toBool = false := by
+  have fin : ∀ {b' : Borrow} {l' : Lend}, getBorrow s.borrows k = some b' → getLend s.lends b'.lendingId = some l' →
+      (!s.isKilled l'.app) = true → False := by
+    intro b' l' e1 e2 e3
+    rw [hb] at e1; cases e1
+    rw [hl] at e2; cases e2
+    exact bnot_contra e3 hk
+  have hcb : ∀ s', closeBorrow cfg s u k ext ≠ .ok s' := by
+    intro s' h; unfold closeBorrow at h; invert h
+    all_goals exact fin ‹getBorrow s.borrows k = some _› ‹getLend s.lends _ = some _› ‹(!s.isKilled _) = true›
+  have hdb : ∀ s', depositBorrow cfg s u k d amt ext ≠ .ok s' := by
+    intro s' h; unfold depositBorrow at h; invert h
+    all_goals exact fin ‹getBorrow s.borrows k = some _› ‹getLend s.lends _ = some _› ‹(!s.isKilled _) = true›
+  have hdr : ∀ s', draw cfg s u k d amt ext ≠ .ok s' := by
+    intro s' h; unfold draw at h; invert h
+    exact fin ‹getBorrow s.borrows k = some _› ‹getLend s.lends _ = some _› ‹(!s.isKilled _) = true›
+  have hrp : ∀ s', repay cfg s u k d amt ext ≠ .ok s' := by
+    intro s' h; unfold repay at h; invert h
+    · exact hcb _ ‹_›
+    all_goals exact fin ‹getBorrow s.borrows k = some _› ‹getLend s.lends _ = some _› ‹(!s.isKilled _) = true›
+  have hrw : ∀ s', repayWithdraw cfg s u k ext r ≠ .ok s' := by
+    intro s' h; unfold repayWithdraw at h; invert h
+    exact hcb _ ‹closeBorrow cfg s u k ext = .ok _›
+  have hho : ∀ s', handover cfg s k ni ≠ .ok s' := by
+    intro s' h; unfold handover at h; invert h
+    all_goals exact fin ‹getBorrow s.borrows k = some _› ‹getLend s.lends _ = some _› ‹(!s.isKilled _) = true›
+  refine ⟨?_, ?_, ?_, ?_, ?_, ?_⟩
+  · cases h : depositBorrow cfg s u k d amt ext with | ok s' => exact absurd h (hdb s') | error e => rfl
+  · cases h : draw cfg s u k d amt ext with | ok s' => exact absurd h (hdr s') | error e => rfl
+  · cases h : repay cfg s u k d amt ext with | ok s' => exact absurd h (hrp s') | error e => rfl
+  · cases h : closeBorrow cfg s u k ext with | ok s' => exact absurd h (hcb s') | error e => rfl
+  · cases h : repayWithdraw cfg s u k ext r with | ok s' => exact absurd h (hrw s') | error e => rfl
+  · cases h : handover cfg s k ni with | ok s' => exact absurd h (hho s') | error e => rfl
+
+/-- **Kill switch / depreciation on ⇒ no new lend, no borrow-alternate on that app / pool; no borrow message on a lend position of that
+app / pool** -/
+theorem guards_reject_new_positions (cfg : Cfg) (s : State) (u a d : Nat) (amt : Int) (p app : Nat) (r : Int) (pid : Nat) (st : Bool)
+    (dOut : Nat) (aOut : Int) (e1 e2 : ExtB) (h : s.isKilled app = true ∨ s.isDep p = true) :
+    (lend cfg s u a d amt p app r).toBool = false ∧
+    (borrowAlternate cfg s u a p d amt pid st dOut aOut app r e1 e2).toBool = false := by
+  have hg : ∀ pc, lendGuards cfg s a d amt p app ≠ .ok pc := by
+    intro pc hh; unfold lendGuards at hh; invert hh
+    rcases h with h | h
+    · exact bnot_contra ‹(!s.isKilled app) = true› h
+    · exact bnot_contra ‹(!s.isDep p) = true› h
+  constructor
+  · cases hh : lend cfg s u a d amt p app r with
+    | error e => rfl
+    | ok s' => unfold lend at hh; invert hh <;> exact absurd ‹lendGuards cfg s a d amt p app = .ok _› (hg _)
+  · cases hh : borrowAlternate cfg s u a p d amt pid st dOut aOut app r e1 e2 with
+    | error e => rfl
+    | ok s' => unfold borrowAlternate at hh; invert hh <;> exact absurd ‹lendGuards cfg s a d amt p app = .ok _› (hg _)
+
+theorem guards_reject_borrow (cfg : Cfg) (s : State) (u k pid : Nat) (st : Bool) (dIn : Nat) (aIn : Int) (dOut : Nat) (aOut : Int) (e1 e2 : ExtB)
+    (l : Lend) (hl : getLend s.lends k = some l) (h : s.isKilled l.app = true ∨ s.isDep l.pool = true) :
+    (borrow cfg s u k pid st dIn aIn dOut aOut e1 e2).toBool = false := by
+  cases hh : borrow cfg s u k pid st dIn aIn dOut aOut e1 e2 with
+  | error e => rfl
+  | ok s' =>
+    exfalso
+    unfold borrow at hh; invert hh
+    all_goals
+      have e := ‹getLend s.lends k = some _›; rw [hl] at e; cases e
+      rcases h with h | h
+      · exact bnot_contra ‹(!s.isKilled _) = true› h
+      · exact bnot_contra ‹(!s.isDep _) = true› h
+
+/-- **Depreciated pool ⇒ no deposit, no further pledge, no draw on its positions** (withdraw, close, repay stay possible: users can exit) -/
+theorem depreciation_rejects (cfg : Cfg) (s : State) (u k d : Nat) (amt r : Int) (l : Lend)
+    (hl : getLend s.lends k = some l) (hd : s.isDep l.pool = true) :
+    (deposit cfg s u k d amt r).toBool = false ∧
+    (∀ kb ext b, getBorrow s.borrows kb = some b → b.lendingId = k →
+      (depositBorrow cfg s u kb d amt ext).toBool = false ∧ (draw cfg s u kb d amt ext).toBool = false) := by
+  constructor
+  · cases hh : deposit cfg s u k d amt r with
+    | error e => rfl
+    | ok s' =>
+      exfalso
+      unfold deposit at hh; invert hh
+      have e := ‹getLend s.lends k = some _›; rw [hl] at e; cases e
+      exact bnot_contra ‹(!s.isDep _) = true› hd
+  · intro kb ext b hb hbk
+    have fin : ∀ {b' : Borrow} {l' : Lend}, getBorrow s.borrows kb = some b' → getLend s.lends b'.lendingId = some l' →
+        (!s.isDep l'.pool) = true → False := by
+      intro b' l' e1 e2 e3
+      rw [hb] at e1; cases e1
+      rw [hbk, hl] at e2; cases e2
+      exact bnot_contra e3 hd
+    constructor
+    · cases hh : depositBorrow cfg s u kb d amt ext with
+      | error e => rfl
+      | ok s' =>
+        exfalso
+        unfold depositBorrow at hh; invert hh
+        all_goals exact fin ‹getBorrow s.borrows kb = some _› ‹getLend s.lends _ = some _› ‹(!s.isDep _) = true›
+    · cases hh : draw cfg s u kb d amt ext with
+      | error e => rfl
+      | ok s' =>
+        exfalso
+        unfold draw at hh; invert hh
+        exact fin ‹getBorrow s.borrows kb = some _› ‹getLend s.lends _ = some _› ‹(!s.isDep _) = true›
+
+/-- non-vacuity: with the switch of app 1 on, the open position of `stateE` can be neither drawn on nor repaid nor withdrawn from; with
+it off again all three work; a depreciated pool still lets the user repay and withdraw but not draw or deposit -/
+example :
+    (step cfgH (setKill stateE 1 true) (.draw 1 1 2 5 (.val 0 0))).toBool = false ∧
+    (step cfgH (setKill stateE 1 true) (.repay 1 1 2 5 (.val 0 0))).toBool = false ∧
+    (step cfgH (setKill stateE 1 true) (.withdraw 1 1 1 5 0)).toBool = false ∧
+    (step cfgH (setKill (setKill stateE 1 true) 1 false) (.draw 1 1 2 5 (.val 0 0))).toBool = true ∧
+    (step cfgH (setDepreciated stateE 1) (.draw 1 1 2 5 (.val 0 0))).toBool = false ∧
+    (step cfgH (setDepreciated stateE 1) (.deposit 1 1 1 5 0)).toBool = false ∧
+    (step cfgH (setDepreciated stateE 1) (.repay 1 1 2 5 (.val 0 0))).toBool = true ∧
+    (step cfgH (setDepreciated stateE 1) (.withdraw 1 1 1 5 0)).toBool = true := by decide
 
 end Comdex.C08
